@@ -5,6 +5,7 @@ import (
 	"context"
 	"fmt"
 	"math/big"
+	"sort"
 	"strings"
 
 	"verifharness/internal/asm"
@@ -254,9 +255,20 @@ func genJournalCase(r *rng.R, fork string) joCase {
 			k.expect = collapseAppend(k.expect, w[32-o-size:32-o])
 			desc("VVJNAL slot=%s off=%d size=%d", k.slot.Hex(), o, size)
 		} else { // VRJNAL(slot, typeId)
-			lens := []int{0, 1, 2, 30, 31, 32, 33, 63, 64, 65, 100}
+			lens := []int{0, 1, 2, 30, 31, 32, 33, 63, 64, 65, 96, 100, 130, 200}
 			content := r.Bytes(lens[r.Intn(len(lens))])
-			switch r.Intn(4) {
+			switch r.Intn(6) {
+			case 4, 5: // whole 32-byte data words of zeros (leading, in the middle, several) with non-zero bytes after them
+				for w := 0; (w+1)*32 <= len(content); w++ {
+					if r.Intn(3) != 0 {
+						for i := w * 32; i < (w+1)*32; i++ {
+							content[i] = 0
+						}
+					}
+				}
+				if n := len(content); n > 0 && content[n-1] == 0 {
+					content[n-1] = 0x5a
+				}
 			case 0:
 				if len(content) > 0 {
 					content[0] = 0
@@ -419,6 +431,7 @@ func genJournalCase(r *rng.R, fork string) joCase {
 			}
 		}
 	}
+	sort.Slice(watch, func(i, j int) bool { return bytes.Compare(watch[i][:], watch[j][:]) < 0 }) // canonical: the case line is also compared across runs (C16)
 	rec.OnState = func(e *impl.Event, scope *vm.ScopeContext) {
 		if e.Op >= 0xe6 && e.Op <= 0xe7 {
 			var buf []byte
